@@ -260,3 +260,39 @@ Definition run (consensus : list (N * N)) (snap evs : list event) : option (list
   | Some s => option_map (cons (observe s)) (run_from s evs)
   | None => None
   end.
+
+(* ---- build_circuit() and Tor's answer (TorState.build_circuit, _find_circuit_after_extend) ----
+   _find_circuit_after_extend("EXTENDED id") is _maybe_create_circuit(int(id)) followed by
+   Circuit.update([str(id), 'EXTENDED']): the same two calls _circuit_update makes for the line "id EXTENDED" *)
+Definition step2 (s : mstate) (st : stim) : option mstate :=
+  match st with
+  | SEv e => step s e
+  | SExtended id => step s (ext_event id)
+  | SBuild _ | SBuildErr => Some s
+  end.
+
+Definition extra2 (s' : mstate) (b : bstate) (st : stim) : extra :=
+  match st with
+  | SEv _ => []
+  | SBuild rs => (0, N.of_nat (length rs)) :: map (fun r => (3, r)) rs
+  | SExtended id => match kfind fst id (circuits s') with
+                    | Some p => [(1, snd p); (4, b_req b - b_pend b)]
+                    | None => []
+                    end
+  | SBuildErr => [(2, b_req b - b_pend b)]
+  end.
+
+Fixpoint run2_from (s : mstate) (b : bstate) (l : list stim) : option (list (obs * extra)) :=
+  match l with
+  | [] => Some []
+  | st :: t => match step2 s st with
+               | Some s' => option_map (cons (observe s', extra2 s' b st)) (run2_from s' (stim_b b st) t)
+               | None => None
+               end
+  end.
+
+Definition run2 (consensus : list (N * N)) (snap : list event) (l : list stim) : option (list (obs * extra)) :=
+  match steps (init consensus) snap with
+  | Some s => option_map (cons (observe s, [])) (run2_from s b0 l)
+  | None => None
+  end.
